@@ -49,12 +49,12 @@ func heavyRun(prop string) func(c *Ctx, idx int) {
 		case "C01":
 			qs = []q{{"length(x[?[*].a])", "0"}, {"sum(x[*].length(@))", fmt.Sprint(rows * n)}}
 			if c.Tier == "thorough" {
-				qs = append(qs, q{"length(x[?[*]])", fmt.Sprint(rows)}, q{"x[*][?@ > `7`] | length(@)", fmt.Sprint(rows)})
+				qs = append(qs, q{"length(x[?[*].a || [*].b])", "0"})
 			}
 		case "C17":
 			qs = []q{{"y[?[*].a].c == (y[?[*].a] | [*].c)", "true"}, {"{k: y[?[*].a]}.k == y[?[*].b]", "true"}}
 			if c.Tier == "thorough" {
-				qs = append(qs, q{"[y[?[*].a], y[?[*].b]] == [y[?[*].a], y[?[*].b]][*]", "true"}, q{"(x[*][?@ > `7`])[0] == (x[*][?@ > `7`] | [0])", "true"}, q{"x[?[*].a].c == (x[?[*].a] | [*].c)", "true"})
+				qs = append(qs, q{"[y[?[*].a], y[?[*].b]] == [y[?[*].a], y[?[*].b]][*]", "true"}, q{"x[?[*].a].c == (x[?[*].a] | [*].c)", "true"})
 			}
 		default: // C18: two heavy stages in one pipe against the same stages in two searches
 			if which != 0 {
